@@ -53,9 +53,11 @@ Identity(w) ==
 (* --- the gate -------------------------------------------------------------- *)
 BodyOK(b) == b.class \in {"valid", "extra", "null"}
 
-Gate(r) ==
+\* lenient: "application/json" with a parameter (a charset) counts as the required content type -- the pinned code compares the
+\* header with the bare string; an implementation that parses the media type accepts it; C08 asks for "Content-Type application/json"
+Gate(r, lenient) ==
   IF r.method # "POST" THEN "method"
-  ELSE IF r.ctype # "json" THEN "ctype"
+  ELSE IF r.ctype # "json" /\ ~(lenient /\ r.ctype = "jsoncs") THEN "ctype"
   ELSE IF r.hdr # "setec" THEN "browser"
   ELSE IF ~Identity(r.whois).ok THEN "identity"
   ELSE IF ~BodyOK(r.body) THEN "body"
@@ -88,7 +90,8 @@ Reject(g, status) ==
 
 ServeApi(r) ==
   /\ r.path \in ApiPaths
-  /\ LET g == Gate(r) IN
+  /\ \E lenient \in (IF r.ctype = "jsoncs" THEN BOOLEAN ELSE {FALSE}) :
+     LET g == Gate(r, lenient) IN
      IF g # "pass" THEN Reject(g, "non2xx")
      ELSE /\ Dispatch(r.path, Identity(r.whois), Args(r.body))
           /\ http' = [gate |-> "pass", status |-> StatusOf(last'.reply.class),
